@@ -221,6 +221,7 @@ func (db *DBResource) ConnectionForXA(ctx context.Context, xaXid XAXid) (*XAConn
 	}
 	xaResource, err := xa.CreateXAResource(newDriverConn, types.DBTypeMySQL)
 	if err != nil {
+		_ = newDriverConn.Close()
 		return nil, fmt.Errorf("create xa resoruce err:%w", err)
 	}
 	xaConn := &XAConn{
@@ -230,6 +231,7 @@ func (db *DBResource) ConnectionForXA(ctx context.Context, xaXid XAXid) (*XAConn
 		},
 		xaBranchXid: XaIdBuild(xaXid.GetGlobalXid(), xaXid.GetBranchId()),
 		xaResource:  xaResource,
+		transient:   true,
 	}
 	return xaConn, nil
 }
